@@ -11,6 +11,10 @@ import (
 // grammarBytes: the 19 bytes that interact with the SML grammar (DESIGN.md C13).
 var grammarBytes = []byte{'"', '\'', '\\', '>', '<', ' ', 'a', '0', 'x', 0x00, '\n', 0x7F, 0x80, 0xFF, '.', '/', '*', '[', ']'}
 
+// utf8Bytes: 'a' and the bytes of U+FFFD (EF BF BD), é (C3 A9), € (E2 82 AC), U+1F600 (F0 9F 98 80), an
+// overlong lead byte (C0) and an invalid byte (FF).
+var utf8Bytes = []byte{'a', 0xEF, 0xBF, 0xBD, 0xC3, 0xA9, 0xE2, 0x82, 0xAC, 0xF0, 0x9F, 0x98, 0x80, 0xC0, 0xFF}
+
 // byteOrder: all 256 byte values, the grammar-relevant ones first (simplest-first ordering).
 func byteOrder() []byte {
 	seen := [256]bool{}
@@ -195,6 +199,15 @@ func Bodies(thorough bool, yield func(class string, it secs2.Item) bool) bool {
 	gb := bytesAlpha(grammarBytes)
 	for n := 3; n <= 4; n++ {
 		if !allStrings(gb, n, func(s string) bool { return yield("ascii3-4/19", secs2.NewASCIIItem(s)) }) {
+			return false
+		}
+	}
+	// ASCII: length 3..4 over the bytes of multi-byte UTF-8 (an ASCII item is a byte string; code that
+	// walks it rune-wise meets U+FFFD itself EF BF BD, 2-, 3- and 4-byte characters, their truncations,
+	// stray continuation bytes, overlong and invalid lead bytes)
+	ub := bytesAlpha(utf8Bytes)
+	for n := 3; n <= 4; n++ {
+		if !allStrings(ub, n, func(s string) bool { return yield("ascii3-4/utf8", secs2.NewASCIIItem(s)) }) {
 			return false
 		}
 	}
